@@ -14,9 +14,28 @@ struct FailingWriter {
     k: Option<usize>,
     short: bool,
     kind: std::io::ErrorKind,
+    once: bool,
+    in_fmt: bool,
+}
+impl FailingWriter {
+    // one failure point = one write!/writeln! call, or one raw write call that reaches the sink outside of one (a BufWriter
+    // flushing into it); --once: only call k fails, later calls are accepted again
+    fn gate(&mut self) -> std::io::Result<()> {
+        if self.k == Some(self.n) {
+            if self.once {
+                self.n += 1;
+            }
+            return Err(std::io::Error::new(self.kind, "injected"));
+        }
+        self.n += 1;
+        Ok(())
+    }
 }
 impl Write for FailingWriter {
     fn write(&mut self, b: &[u8]) -> std::io::Result<usize> {
+        if !self.in_fmt && !self.short {
+            self.gate()?;
+        }
         if self.short && b.len() > 1 {
             self.buf.push(b[0]);
             return Ok(1);
@@ -28,19 +47,19 @@ impl Write for FailingWriter {
         Ok(())
     }
     fn write_fmt(&mut self, args: std::fmt::Arguments<'_>) -> std::io::Result<()> {
-        if self.k == Some(self.n) {
-            return Err(std::io::Error::new(self.kind, "injected"));
-        }
-        self.n += 1;
+        self.gate()?;
         let s = std::fmt::format(args);
-        self.write_all(s.as_bytes())
+        self.in_fmt = true;
+        let r = self.write_all(s.as_bytes());
+        self.in_fmt = false;
+        r
     }
 }
 
 fn main() {
     let a: Vec<String> = std::env::args().collect();
     if a.len() < 5 || a[1] != "gen" {
-        eprintln!("usage: driver gen <dir> <start> <out> [--fail-at K] [--repeat N] [--order a,b] [--short]");
+        eprintln!("usage: driver gen <dir> <start> <out> [--fail-at K] [--repeat N] [--order a,b] [--short] [--once]");
         std::process::exit(64);
     }
     let (dir, start, out) = (&a[2], &a[3], &a[4]);
@@ -48,6 +67,7 @@ fn main() {
     let mut repeat = 1;
     let mut order: Option<Vec<String>> = None;
     let mut short = false;
+    let mut once = false;
     let mut kind = std::io::ErrorKind::Other;
     let mut i = 5;
     while i < a.len() {
@@ -56,6 +76,7 @@ fn main() {
             "--repeat" => { repeat = a[i + 1].parse().unwrap(); i += 2; }
             "--order" => { order = Some(a[i + 1].split(',').map(str::to_string).collect()); i += 2; }
             "--short" => { short = true; i += 1; }
+            "--once" => { once = true; i += 1; }
             "--kind" => {
                 kind = match a[i + 1].as_str() {
                     "BrokenPipe" => std::io::ErrorKind::BrokenPipe,
@@ -89,7 +110,7 @@ fn main() {
     let ftr = FilesToRead::new(start, files);
     std::panic::set_hook(Box::new(|_| {}));
     for run in 0..repeat {
-        let mut w = FailingWriter { buf: Vec::new(), n: 0, k, short, kind };
+        let mut w = FailingWriter { buf: Vec::new(), n: 0, k, short, kind, once, in_fmt: false };
         let r = catch_unwind(AssertUnwindSafe(|| match XmlReader::read_xml(&ftr) {
             Err(e) => format!("READ_ERR {e:?}"),
             Ok(doc) => match doc.write_xml(&mut w) {
